@@ -37,7 +37,7 @@ ASSUMPTIONS = [
 
 ROUTINES = ["dqn", "nature_dqn", "ddqn", "per", "ddpg", "td3", "td3_lap", "sac",
             "td7", "mrq", "pets", "reinforce", "actor_critic", "a2c", "a2c_same",
-            "ppo", "q_learning", "sarsa", "double_q_learning", "monte_carlo",
+            "a2c_inplace", "ppo", "q_learning", "sarsa", "double_q_learning", "monte_carlo",
             "dynaq", "rollout_helper"]
 COST = {"mrq": 14, "pets": 10, "td7": 8, "dqn": 7, "ppo": 7, "dynaq": 5, "sac": 4,
         "ddpg": 3, "td3": 3, "td3_lap": 3}
@@ -310,7 +310,14 @@ def run_case(case):
     if algo == "a2c_same":
         name = "a2c"
         cfg["same_step"] = True
-    if algo in ("reinforce", "actor_critic", "a2c", "a2c_same"):
+    if algo == "a2c_inplace":
+        # vector environment that reuses one observation buffer
+        # (SyncVectorEnv(copy=False)); with one step per update every row is
+        # stored before the buffer is overwritten again
+        name = "a2c"
+        cfg["inplace_obs"] = True
+        cfg["steps_per_update"] = 1
+    if algo in ("reinforce", "actor_critic", "a2c", "a2c_same", "a2c_inplace"):
         cfg["discrete"] = bool(case["seed"] % 2)
     run = make_run(name, cfg)
     tr = run.trace
@@ -558,6 +565,7 @@ def run_tabular(res, run, mod, case):
     algo = case["algo"]
     tr = run.trace
     in_planning = [0]
+    store = [None]
     patches = []
 
     def rec_update(name, fn):
@@ -591,7 +599,9 @@ def run_tabular(res, run, mod, case):
         def counter_update(counter, obs, act, reward, next_obs):
             tr.ev("update", name="counter_update", planning=False,
                   args=dict(obs=obs, act=act, reward=reward, next_obs=next_obs))
-            return orig_cu(counter, obs, act, reward, next_obs)
+            out = orig_cu(counter, obs, act, reward, next_obs)
+            store[0] = out
+            return out
 
         patches.append((mod, "counter_update", counter_update))
     eg = mod.epsilon_greedy_policy
@@ -603,6 +613,34 @@ def run_tabular(res, run, mod, case):
         return res
     res.see("routines_run")
     res.see(f"run_{algo}")
+    if algo == "dynaq" and store[0] is not None:
+        # Dyna-Q's experience store ("maps o,a,o' to list of rewards"): per
+        # transition exactly the rewards the environment returned for it
+        want = {}
+        for e in tr.events:
+            if e["k"] == "step":
+                want.setdefault((int(e["prev"]), int(e["action"]), int(e["obs"])),
+                                []).append(float(e["reward"]))
+        hist, cnt = store[0].reward_history, store[0].transition_counter
+        for o in range(len(hist)):
+            for a_ in range(len(hist[o])):
+                for o2 in range(len(hist[o][a_])):
+                    got = [float(x) for x in hist[o][a_][o2]]
+                    exp = want.get((o, a_, o2), [])
+                    if not np.allclose(got, exp, atol=1e-6) if len(got) == len(exp) \
+                            else True:
+                        res.violation(
+                            "C01/experience_store/dynaq",
+                            f"rewards kept for transition ({o},{a_},{o2}): {got}, "
+                            f"the environment returned {exp}")
+                        return res
+                    if int(cnt[o][a_][o2]) != len(exp):
+                        res.violation(
+                            "C01/experience_store/dynaq",
+                            f"count kept for transition ({o},{a_},{o2}): "
+                            f"{int(cnt[o][a_][o2])}, observed {len(exp)} times")
+                        return res
+                    res.see("experience_store_entries_checked")
     cur = None
     last = None
     boundaries = {"T": 0, "U": 0}
